@@ -263,6 +263,11 @@ FIXED = {
     "paren_target": lambda n: "(" * n + "a" + ")" * n + " = 1\n",
     "list_target": lambda n: "[" * n + "a" + "]" * n + " = 1\n",
     "for_target": lambda n: "for " + "(" * n + "a," + ")" * n + " in x: pass\n",
+    "def_paren_params_bad": lambda n: "def f(" + "(a, " * n + "b" + ")" * n + "): pass\n",
+    "def_paren_params_bad2": lambda n: "def f(" + "(" * n + "a" + ", b)" * n + "): pass\n",
+    "lambda_paren_params_bad": lambda n: "x = lambda " + "(a, " * n + "b" + ")" * n + ": 0\n",
+    "subproc_groups_bad": lambda n: "$[echo " + "( [a] " * n + "]" + " )" * n + "\n",
+    "subproc_groups": lambda n: "$[echo " + "(a " * n + ")" * n + "]\n",
     "del_paren": lambda n: "del " + "(" * n + "a" + ")" * n + "\n",
     "del_bracket": lambda n: "del " + "[" * n + "a" + "]" * n + "\n",
     "del_paren_attr": lambda n: "del " + "(" * n + "a.b" + ")" * n + ", c\n",
